@@ -1050,7 +1050,7 @@ fn sweep_poly<F: PrimeField + FftField, M: Mdl<F>, D: EvaluationDomain<F> + Send
                 continue;
             };
             let n = pts.len();
-            let dinv: Vec<M::E> = (0..n)
+            let prods: Vec<M::E> = (0..n)
                 .map(|i| {
                     let mut acc = m.one();
                     for j in 0..n {
@@ -1058,9 +1058,19 @@ fn sweep_poly<F: PrimeField + FftField, M: Mdl<F>, D: EvaluationDomain<F> + Send
                             acc = m.mul(acc, m.sub(pts[i], pts[j]));
                         }
                     }
-                    m.inv(acc)
+                    acc
                 })
                 .collect();
+            if prods.iter().any(|x| *x == m.zero()) {
+                // h*g^i are not pairwise distinct: the generator's order is smaller than the reported size
+                ctx.add_violation(
+                    &format!("vanishing_lagrange/{}/{}/new", fi.name, kind.name()),
+                    0,
+                    format!("size {size} offset #{off}: the domain elements h*g^i (i < size) are not pairwise distinct, group_gen has order < size"),
+                );
+                continue;
+            }
+            let dinv: Vec<M::E> = prods.into_iter().map(|x| m.inv(x)).collect();
             cfgs.push(PolyCfg { d, size, off, pts, dinv });
         }
     }
